@@ -33,6 +33,26 @@ def run(pid, tier, seed):
         ev = json.loads(last[0]) if last else {}
         san.append((name, ev if ev.get("e") in ("Sanitizer", "Crash") else None, p))
 
+    # the same recorders (plain build) under valgrind's memcheck: reads of storage that no live object has written (an arena
+    # tail, a recycled block) and leaks, which the sanitizer build does not see when the bytes lie inside a live allocation
+    import subprocess
+    vg_runs = [("strings", ["strings.cxx"], ["record", "--seed", seed, "--n", 100]), ("seqs", ["seqs.cxx"], ["record"]),
+               ("ledger", ["ledger.cxx"], ["record", "--seed", seed + 2]), ("units", ["units.cxx"], ["record", "--runs", 2, "--len", 40]),
+               ("unify", ["unify.cxx"], ["record", "--seed", seed, "--runs", 2, "--len", 60])]
+    if not q:
+        vg_runs.append(("make", ["make.cxx"], ["record", "--seed", seed, "--runs", 2, "--len", 150]))
+    vg = []
+    for name, srcs, args in vg_runs:
+        e = vlib.build_harness(name, srcs)
+        try:
+            r = subprocess.run(["valgrind", "-q", "--error-exitcode=9", "--leak-check=full", "--errors-for-leak-kinds=definite,indirect", e]
+                               + [str(a) for a in args], stdout=subprocess.DEVNULL, stderr=subprocess.PIPE, text=True, timeout=1800)
+        except subprocess.TimeoutExpired:
+            raise vlib.ModelFailure("valgrind run of %s timed out" % name)
+        if r.returncode == 2:
+            raise vlib.ModelFailure("recorder %s failed under valgrind: %s" % (name, r.stderr[-500:]))
+        vg.append((name, r.returncode, r.stderr))
+
     def model(leaky):
         cfg = os.path.join(vlib.cfg_dir(), "IprLedgerMC-%s-%s-%d.cfg" % (pid, leaky, os.getpid()))
         vlib.write_cfg(cfg, spec="Spec", constants={"Ids": tla_set([1, 2, 3, 4]), "Leaky": leaky}, invariants=["CanEnd"])
@@ -73,11 +93,16 @@ def run(pid, tier, seed):
             key = "sanitizer:%s" % name
             path = vlib.save_replay(pid, "sanitizer-%s.json" % name, json.dumps(ev) + "\n")
             violations.append((key, "%s history under AddressSanitizer/LeakSanitizer: %s %s" % (name, ev.get("frame"), ev.get("detail", "")[-300:]), path))
+    for name, rc, err in vg:
+        if rc != 0:
+            first = [ln for ln in err.splitlines() if ln.startswith("==")][:12]
+            path = vlib.save_replay(pid, "valgrind-%s.txt" % name, err[:20000])
+            violations.append(("valgrind:%s" % name, "%s history under valgrind memcheck (exit %s): %s" % (name, rc, " | ".join(first)[:600]), path))
     summaries = [e for e in lines if e.get("e") == "summary"]
     cov = {
         "states": m_ok.distinct + m_leaky.distinct + tr["states"], "transitions": m_ok.generated + m_leaky.generated + tr["transitions"],
         "traces_validated_against_impl": tr["executions"] - len([r for r in tr["rejections"]]) + len([1 for _, ev, _ in san if ev is None]),
-        "evaluations": sum(e["allocs"] + e["frees"] for e in summaries),
+        "evaluations": sum(e["allocs"] + e["frees"] for e in summaries), "valgrind_runs": [n for n, _, _ in vg],
         "distinct_nontrivial": len({e["kind"] for e in summaries}) + len(san),
         "rule": "nine construction histories (empty Lexicon, unit, names, types incl. foreign transfers, scopes with redeclarations, "
                 "nested regions/handlers/mappings/modules, strings incl. roll-over and oversize pools, the whole zoo built and "
